@@ -15,23 +15,31 @@ def strat(rng):
     return {'kind': 'replay', 'prefix': []}
 
 
-def gen(rng, n, modes=('idle', 'lit', 'closed', 'own')):
+def gen(rng, n, modes=('idle', 'lit', 'closed', 'own', 'idle_then_lit')):
     out = []
     for _ in range(n):
         mode = rng.choice(modes)
         target = 'idle' if mode == 'own' else mode
         nc = rng.choice([1, 2, 2, 3]) if mode != 'idle' else rng.choice([1, 1, 2, 3])
+        if mode == 'idle_then_lit':
+            nc = 1           # (several concurrent callers on an idle loop are the known finding D7)
         callers = []
         for i in range(nc):
-            kind = (rng.choice(['coro', 'coro', 'coro', 'donefut']) if target == 'lit' and mode != 'own'
+            kind = (rng.choice(['coro', 'coro', 'coro', 'donefut']) if target in ('lit', 'idle_then_lit') and mode != 'own'
                     else rng.choice(['coro', 'coro', 'task', 'future', 'donefut']))
             callers.append({'c': i + 1, 'thr': 'C%d' % (i + 1), 'start': rng.choice([0.0, 0.0, 0.0, 1.0]),
                             'fn': 'ensure_aw' if mode != 'lit' else rng.choice(['ensure_aw', 'ensure_aw', 'run_aw_threadsafe']),
                             'to': 'own' if mode == 'own' or rng.random() < 0.15 else 'T',
                             'aw': {'kind': kind, 'out': rng.choice(['val', 'val', 'exc']),
                                    'dur': rng.choice([0.0, 0.0, 1.0, 2.0])}})
-        out.append({'target': target, 'callers': callers, 'stop_at': rng.choice([0.0, 0.0, 3.0]),
-                    'strategy': strat(rng)})
+        sc = {'target': target, 'callers': callers, 'stop_at': rng.choice([0.0, 0.0, 3.0]), 'strategy': strat(rng)}
+        if mode == 'idle_then_lit':
+            sc['lit_at'] = rng.choice([0.0, 0.0, 0.5, 1.0])
+            for c in callers:
+                c['fn'] = 'ensure_aw'
+                c['aw']['dur'] = rng.choice([0.0, 1.0, 2.0])
+            sc['stop_at'] = max(c['start'] + c['aw']['dur'] for c in callers) + 2.0
+        out.append(sc)
     return out
 
 
@@ -42,9 +50,16 @@ def nontrivial(sc, r):
 def known_match(k, clause, idx, sc, r):
     """D7: several callers target the same *idle* loop concurrently; one of them sees the loop running
     under another caller's temporary run_until_complete, submits thread-safely, and is stranded."""
+    if k.get('signature') == 'loop_in_thread-during-temporary-run':
+        return clause == 'C17_StartSync' and sc.get('target') == 'idle_then_lit'
     if k.get('signature') == 'idle-target-concurrent-ensure_aw':
-        return (clause == 'C17_Completes' and sc.get('target') == 'idle'
-                and sum(1 for c in sc['callers'] if c['to'] == 'T') >= 2)
+        if not (clause == 'C17_Completes' and sc.get('target') == 'idle'
+                and sum(1 for c in sc['callers'] if c['to'] == 'T') >= 2):
+            return False
+        # the stranded call was submitted thread-safely and simply never runs: at the dead end only caller
+        # threads are stuck (waiting for their futures) - no pool thread is blocked on a lock, nothing spins
+        hangs = [e for e in r['events'] if e['e'] == 'Hang']
+        return bool(hangs) and hangs[-1].get('why') == 'idle' and all(t.startswith('C') for t in hangs[-1].get('thr', []))
     return False
 
 
